@@ -223,12 +223,22 @@ Definition mon_final (fs : list frame) : bool :=
     cacheable result at second c, every request arriving at a second
     <= c + H goes straight to the upstream labelled hitForPass; it is never
     parked and never a hit *)
-Fixpoint mon_hfp (t : Z) (H : Z) (mark : option Z) (clean : bool) (prev : list tobs) (fs : list frame) : bool :=
+Fixpoint mon_hfp (t : Z) (H : Z) (hs : bool) (rd : bool) (mark : option Z) (clean : bool) (prev : list tobs) (fs : list frame) : bool :=
   match fs with
   | [] => true
   | f :: r =>
       let t1 := match f_op f with OpTick d => (t + d)%Z | _ => t end in
-      let clean1 := clean && negb (disruptive (f_op f)) in
+      let rd1 := match f_op f with OpFaults r0 _ => r0 | _ => rd end in
+      (* the marker survives the loss of the in-memory entry when a store is
+         configured, readable, and holds the hit-for-pass record (C08: markers
+         are persisted under the same rules) *)
+      let persisted := hs && rd1 && match f_store f with SoRec HitForPass _ _ _ => true | _ => false end in
+      let clean1 := clean && match f_op f with
+                             | OpPurge _ | OpCorrupt _ => false
+                             | OpEvict | OpRestart => persisted
+                             | OpFaults r0 _ => r0
+                             | _ => true
+                             end in
       let cur := f_threads f in
       let released_fetcher :=
         match f_op f with
@@ -251,7 +261,7 @@ Fixpoint mon_hfp (t : Z) (H : Z) (mark : option Z) (clean : bool) (prev : list t
             else true
         | _, _ => true
         end in
-      ok && mon_hfp t1 H mark1 clean1 cur r
+      ok && mon_hfp t1 H hs rd1 mark1 clean1 cur r
   end.
 
 (** C18: when a purge (successful delete) is issued while nothing is in flight
@@ -307,7 +317,7 @@ Definition mon_all (c : fl_case) : list bool :=
     mon_final fs;
     mon_lifecycle [] fs;
     mon_fresh (fc_t0 c) [] [] fs;
-    mon_hfp (fc_t0 c) H None true [] fs;
+    mon_hfp (fc_t0 c) H (fc_store c) true None true [] fs;
     mon_purge false [] fs;
     mon_own_answer [] fs ].
 
